@@ -1,8 +1,10 @@
 import PedalModel.DriverLoop
+import PedalModel.TypeOpsWire
 open Pedal
 
-/- Line-protocol driver for C19: replace the stub dispatch with the model's request handlers. -/
+/- Line-protocol driver for C19: the operator-typing / value-typing model (PedalModel/TypeOps.lean). -/
 def dispatch : List String → String
+  | "c19" :: ts => Types.handle ts
   | _ => "bad-request"
 
 def main : IO Unit := driverMain dispatch
